@@ -476,6 +476,9 @@ def program_equivalence(prog1, prog2, compare_params=True, atol=1e-6, rtol=0):
                 bs_params = [j % np.pi for j in par_evaluate(n.op.p)]
                 if not np.allclose(bs_params, [np.pi / 4, np.pi / 2]):
                     wire_mapping[i] = [j.ind for j in n.reg]
+            elif n.op.__class__.__name__ in ("MZgate", "sMZgate"):
+                # Mach-Zehnder interferometers are not symmetric under exchange of their modes
+                wire_mapping[i] = [j.ind for j in n.reg]
 
         # add node attributes to store the operation wires
         nx.set_node_attributes(circuit[-1], wire_mapping, name="w")
